@@ -149,6 +149,14 @@ MUTANTS = [
      [(SQ + "mempool/mod.rs",
        "        let tx_id_to_insert = *ttx_to_insert.id();\n\n        // try insert into pending\n",
        "        let tx_id_to_insert = *ttx_to_insert.id();\n        // track in contained txs\n        self.contained_txs.insert(tx_id_to_insert);\n\n        // try insert into pending\n", 0)]),
+    ("C11-restart-from-prepared-height", "S4", "after a restart the in-flight (prepared) height counts as completed",
+     [(RL + "relayer/submission.rs",
+       "            | SubmissionStateAtStartup::Prepared(PreparedSubmission {\n                last_submission, ..\n            }) => Some(last_submission.sequencer_height),",
+       "            => Some(last_submission.sequencer_height),\n            SubmissionStateAtStartup::Prepared(PreparedSubmission {\n                sequencer_height, ..\n            }) => Some(*sequencer_height),", 0)]),
+    ("C10-commitment-firm-may-exceed-soft", "X5", "CommitmentState builder no longer rejects firm > soft",
+     [(CO + "execution/v2/mod.rs",
+       "        if firm_executed_block_metadata.number() > soft_executed_block_metadata.number() {",
+       "        if firm_executed_block_metadata.number() > soft_executed_block_metadata.number().saturating_add(1) {", 0)]),
     ("C08-right-child-midpoint", "M4", "re-attached right child taken as the midpoint of the remaining nodes",
      [(MK + "lib.rs",
        "        let root = complete_root(n.checked_sub(i_plus_one).unwrap());\n        i_plus_one.checked_add(root).unwrap()",
